@@ -25,7 +25,7 @@ CLAIMS = {
              "All ordered pairs of ~320 subjects (104k pairs) with must-accept / must-reject / no-verdict classification computed from the harness' own shapes, plus header corruption with reader-position monitor.", "DESIGN.md §5 C05"),
     "C06": c("vh", "runtime monitoring: structure-aware mutation fuzzing in isolated, address-space-limited child processes with a lengths-first / bit-pattern value inspector",
              "Mutants target every length, tag, discriminant, bool, char and special payload of valid encodings, plus schema sections and random bytes; outcomes are classified per input, process deaths and "
-             "non-termination (child CPU time) are attributed to the journalled input. Release build (the only one in which size arithmetic wraps), Miri; thorough adds debug and AddressSanitizer.", "DESIGN.md §5 C06"),
+             "non-termination (child CPU time) are attributed to the journalled input. Release build (the only one in which size arithmetic wraps), debug build (overflow checks) and Miri; thorough adds AddressSanitizer.", "DESIGN.md §5 C06"),
     "C07": c("vh", "runtime monitoring: exhaustive crash-point (truncation) enumeration",
              "Every cut offset of every saved file up to 6000 bytes in five containers, plus frame-boundary neighbourhoods of multi-chunk encrypted streams.", "DESIGN.md §5 C07"),
     "C08": c("vh", "runtime monitoring: exhaustive fault-offset enumeration with instrumented Read/Write and an independent AES-GCM stream decryptor",
